@@ -226,7 +226,7 @@ class Ctx:
         s.forced = list(forced); s.trace = []; s.new_alts = []
         s.pc = []; s.nchecks = 0; s.tsolve = 0.0; s.steps = 0; s.events = []; s.fresh = itertools.count()
         s.now_vars = []; s.sys_vars = []; s.tid = 0; s.sched_trace = []; s.blocks = 0
-        s.gate_policy = None; s.notes = []; s.funcs_used = set(); s.tysubst = []; s.builtins_used = set(); s.real_time = False
+        s.gate_policy = None; s.notes = []; s.funcs_used = set(); s.tysubst = []; s.builtins_used = set(); s.real_time = False; s.blocked = []
     def add(s, c):
         if c is True: return
         if c is False: raise Infeasible()
@@ -404,11 +404,11 @@ class Program:
                 for ln in range(a - 1, b + 1):
                     pl = plines[ln - 1] if 0 < ln <= len(plines) else ''
                     if '{closure@' not in pl and '{coroutine@' not in pl and 'async ' not in pl: continue
-                    names = re.findall(r'\{(?:static )?((?:[^{} ]|\{(?:closure|constant|impl)#\d+\})*?\{closure#\d+\}) (?:closure_kind_ty|upvar_tys|resume_ty)', vlines[ln - 1])
+                    names = re.findall(r'\{(?:static )?((?:<[^<>{}]*>|[^{} ]|\{(?:closure|constant|impl)#\d+\})*?\{closure#\d+\}) (?:closure_kind_ty|upvar_tys|resume_ty)', vlines[ln - 1])
                     mm = re.match(r'^\s*let (?:mut )?_(\d+): ', pl)
                     if mm and names: s.clo_of_local[(f.name, int(mm.group(1)))] = names[0]
                     if names: s.clo_on_line[(tag, ln)] = names
-                    zs = re.findall(r'ZeroSized: \{(?:static )?((?:[^{} ]|\{(?:closure|constant|impl)#\d+\})*?\{closure#\d+\}) (?:closure_kind_ty|upvar_tys|resume_ty)', vlines[ln - 1])
+                    zs = re.findall(r'ZeroSized: \{(?:static )?((?:<[^<>{}]*>|[^{} ]|\{(?:closure|constant|impl)#\d+\})*?\{closure#\d+\}) (?:closure_kind_ty|upvar_tys|resume_ty)', vlines[ln - 1])
                     if zs: s.clo_zs_on_line[(tag, ln)] = zs
         for k, v in allocs.items(): s.allocs[(tag, k)] = v
         s._index()
@@ -492,7 +492,7 @@ class Interp:
         s.p = prog; s.env = {}
         s.reset()
     def reset(s):
-        s.static_cells = {}; s.tls = {}; s.const_cache = {}; s.lock_names = {}
+        s.static_cells = {}; s.tls = {}; s.const_cache = {}; s.lock_names = {}; s._addr = {}; s._addr_keep = []
 
     # ---------- function execution (generator)
     def call_fn(s, ctx, f, args):
@@ -758,6 +758,13 @@ class Interp:
                 if inr: return a
                 return ((a - lo) % (hi - lo + 1)) + lo
             if ck == 'FloatToInt': raise Unsupported('float to int cast')
+            if ck == 'PointerExposeProvenance' and isinstance(a, Ref):
+                # address of an object as an integer: one distinct, stable, non-null number per (cell, projection) of this run
+                key = (id(a.cell), a.path)
+                tab = s.__dict__.setdefault('_addr', {})
+                keep = s.__dict__.setdefault('_addr_keep', [])
+                if key not in tab: tab[key] = 0x10000 + 0x100 * len(tab); keep.append(a.cell)
+                return tab[key]
             if ck in ('PointerCoercion', 'Transmute', 'PtrToPtr', 'FloatToFloat', 'FnPtrToPtr', 'PointerExposeProvenance'): return a
             raise Unsupported('cast ' + ck)
         if k == 'agg':
@@ -929,12 +936,11 @@ class Interp:
             return h(ctx, args)
         # type parameters bound at a monomorphic call site further up (e.g. GlobalCache::<u64>::insert -> R := u64)
         if tc and ctx.tysubst and re.match(r'^[A-Z][0-9]?$', tc[3].strip()):
-            for sub in reversed(ctx.tysubst):
-                if tc[3].strip() in sub:
-                    conc = sub[tc[3].strip()]
-                    func = '<' + conc + func[func.index(' as '):]
-                    g = strip_generics(func); tc = norm_trait_call(g)
-                    break
+            from .builtins import subst_type as _st
+            conc = _st(ctx, tc[3].strip())
+            if conc != tc[3].strip():
+                func = '<' + conc + func[func.index(' as '):]
+                g = strip_generics(func); tc = norm_trait_call(g)
         # 2. repository code with MIR for exactly this receiver type wins over builtin models
         f = None
         if tc:
@@ -962,6 +968,21 @@ class Interp:
                 b = bind_params(f.locals[f.args[0]].ty, site_ty)
                 if b:
                     ctx.tysubst.append(b); pushed = True
+            elif not tc:
+                # free generic function called with one explicit type argument (`helper::<T1>(..)`): the callee's only type
+                # parameter is that type (possibly a type parameter of the caller, resolved through the enclosing bindings)
+                mm = re.search(r'::\w+::<([^<>]*(?:<[^<>]*>[^<>]*)*)>$', func)
+                if mm and not f.name.endswith('>'):
+                    from .builtins import subst_type
+                    site = [t for t in split_top(mm.group(1)) if not t.strip().startswith("'")]
+                    ps = []
+                    for a_ in f.args:
+                        for t_ in re.findall(r'(?<![\w:])([A-Z][0-9]?)(?![\w:<])', f.locals[a_].ty):
+                            if t_ not in ps: ps.append(t_)
+                    if len(site) == 1 and len(ps) == 1:
+                        conc = subst_type(ctx, site[0].strip())
+                        if conc != ps[0] or ctx.tysubst:
+                            ctx.tysubst.append({ps[0]: conc}); pushed = True
         try:
             r = yield from s.call_fn(ctx, f, args)
         finally:
@@ -1056,12 +1077,19 @@ def _unescape(t):
 
 
 # ------------------------------------------------------------------ scheduler / exploration
-def grantable(t):
+def grantable(t, threads=()):
     if t.pending is None: return True
     kind, lk, mode = t.pending
     if kind != 'acquire': return True
     if mode == 'w': return lk.state == 0
-    return lk.state >= 0
+    if lk.state < 0: return False
+    # writer preference (parking_lot and std RwLock): while readers are inside and a writer has arrived at the lock, further
+    # readers queue behind that writer.  (The interleaving in which the reader gets in first is the one in which the
+    # writer thread has not been advanced to its acquisition yet.)
+    if lk.state > 0 and lk.kind != 'Mutex':
+        for o in threads:
+            if o is not t and not o.done and o.pending is not None and o.pending[0] == 'acquire' and o.pending[1] is lk and o.pending[2] == 'w': return False
+    return True
 
 
 def run_threads(ctx, progs, preempt_bound=2):
@@ -1072,8 +1100,10 @@ def run_threads(ctx, progs, preempt_bound=2):
     while True:
         alive = [t for t in threads if not t.done]
         if not alive: return [t.result for t in threads]
-        enabled = [t for t in alive if grantable(t)]
+        enabled = [t for t in alive if grantable(t, threads)]
         if not enabled:
+            # the blocked requests, writers first (the order in which a native run has to issue them to end up in this configuration)
+            ctx.blocked = sorted([(t.tid, t.pending[1].name, t.pending[2], 0 if t.pending[1].kind == 'Mutex' else (1 if t.pending[2] == 'r' else 2)) for t in alive], key=lambda b: (b[2] != 'w', b[0]))
             raise Deadlock([(t.tid, t.pending[1].name, t.pending[2], list(t.pending[1].owners)) for t in alive])
         if cur is not None and not cur.done and cur in enabled and preempts >= preempt_bound:
             nxt = cur
